@@ -50,6 +50,9 @@ def r1_no_panic(ctx):
     ctx.call_sites += sum(len(prog.bodies[b].calls) for b in cl)
 
 
+# adaptors that hand a field through unchanged (borrow, clone, default for an absent optional, Display)
+VERBATIM_OK = {"as_deref", "as_ref", "as_str", "unwrap_or", "unwrap_or_default", "clone", "to_string", "to_owned", "borrow", "deref", "display"}
+TIMEOUT = re.compile(r"tokio::time::timeout::timeout$|tokio::time::timeout$|timeout_at$")
 SOCK_READ = re.compile(r"AsyncBufReadExt>?::(read_line|read_until)$|AsyncReadExt>?::(read_to_end|read_to_string|read_buf|read|read_exact)$")
 
 
@@ -69,7 +72,26 @@ def r2_bounded_reads(ctx):
             # (a) the future flows into tokio::time::timeout
             from .lib import forward_calls
             fw = forward_calls(b, c.dest[0], through=re.compile(r"\bIntoFuture>?::into_future$"))
-            under_timeout = any(re.search(r"tokio::time::timeout::timeout$|tokio::time::timeout$|timeout_at$", x.name) for x in fw)
+            under_timeout = any(TIMEOUT.search(x.name) for x in fw)
+            if not under_timeout and b.parent and b.parent in ctx.prog.bodies:
+                # the read sits in an `async { .. }` block: covered when that block is the future handed to timeout() by the parent
+                pb = ctx.prog.bodies[b.parent]
+                for i, j, st in pb.stmts():
+                    r = st["r"]
+                    if r["k"] == "Agg" and r.get("ak") in ("coroutine", "closure", "coroutine_closure") and r.get("body") == b.id and len(st["p"]) == 1:
+                        fw2 = forward_calls(pb, st["p"][0], through=re.compile(r"\bIntoFuture>?::into_future$"))
+                        if any(TIMEOUT.search(x.name) for x in fw2):
+                            under_timeout = True
+            # (c) a count-returning read inside a loop tests ITS OWN count for zero and that edge leaves the loop: after EOF (or once
+            # a take() limit is used up) the read returns Ok(0) immediately and for ever - without the exit the loop spins without
+            # yielding, so not even the surrounding timeout can fire
+            if re.search(r"::(read_line|read_until|read|read_buf)$", c.name) and c.bb in b.reachable(b.succ[c.bb]):
+                from .lib import zero_read_leaves_loop
+                exits = zero_read_leaves_loop(b, c)
+                ctx.check(exits, rule, [b.id, "eof-leaves-loop", c.name.split("::")[-1]], "a zero-length read leaves the read loop",
+                          "%s calls %s in a loop that does not leave on that call's own Ok(0): at end of input (or once the take() limit is exhausted) the read "
+                          "returns Ok(0) immediately every time, the loop never yields, the timeout around it cannot fire and the worker thread is lost" %
+                          (ctx._stable(b.id), c.name.split("::")[-1]), c.loc())
             ctx.check(under_timeout, rule, [b.id, "timeout", c.name.split("::")[-1]], "read is the future argument of timeout()",
                       "%s reads from the socket without a timeout: a client that never sends wedges the task forever" % b.id, c.loc(), sample={"read": c.loc()})
             # (b) size bound: the reader chain contains take(N), or the read is read_exact / read into a fixed buffer
@@ -235,6 +257,15 @@ def r4_schema(ctx):
                     fields.append(f)
                 for e, f in zip(exprs, fields):
                     key = ["BpsvResponse::" + fn, cname]
+                    if f is not None:
+                        # the cell is the field itself: only borrowing / defaulting adaptors between the field and the template
+                        meths = re.findall(r"\.\s*([a-z_0-9]+)\s*(?:::<[^>]*>)?\s*\(", e)
+                        odd = [m_ for m_ in meths if m_ not in VERBATIM_OK]
+                        sliced = bool(re.search(r"\[[^\]]*\.\.[^\]]*\]", e))
+                        ctx.check(not odd and not sliced, rule, key + ["verbatim", f], "the cell is the record field, unmodified",
+                                  "BpsvResponse::%s feeds column %s with `%s`: the value passes %s, so what the client receives is a function of the database field "
+                                  "and not the field (a filter / transformation that drops or rewrites values the database holds)" % (fn, cname, e[:120], (odd or ["a sub-slice"])[0]),
+                                  loc, sample={"column": col, "expr": e[:160], "methods": meths})
                     if f is None:
                         # loop variables over literal arrays / integer parameters
                         ctx.ok(rule, key + ["non-field"], "column fed by a literal/integer expression", loc, nontrivial=False)
@@ -375,4 +406,4 @@ def run(ctx):
 
 
 from .selftest import for_families as _ff  # noqa: E402
-selftest = _ff(['panic', 'gate'])
+selftest = _ff(['panic', 'gate', 'readloop'])
